@@ -76,6 +76,13 @@ impl<'a> Display for FormatReportFormatter<'a> {
                     .annotations(annotation(error));
                 message = message.snippet(snippet);
 
+                // A line wider than the terminal is trimmed by the renderer, which counts display
+                // columns but cuts at bytes: do not let it trim a line that is not ASCII.
+                let renderer = if error.line_buffer.is_ascii() {
+                    renderer.clone()
+                } else {
+                    renderer.clone().term_width(usize::MAX / 2)
+                };
                 writeln!(f, "{}\n", renderer.render(message))?;
             }
         }
